@@ -21,6 +21,7 @@ Representation decisions
   class-level source-end test is case-insensitive, Associators fills in the host).
 -/
 import Pywbem.Proto
+import Pywbem.Generated.AssocConsts
 
 namespace Pywbem.Model.Assoc
 open Pywbem.Proto
@@ -111,10 +112,13 @@ structure Server where
   repo : Repo
   deriving Repr, Inhabited
 
-def errNamespace : PyExc := .cimError 3      -- CIM_ERR_INVALID_NAMESPACE
-def errParam : PyExc := .cimError 4          -- CIM_ERR_INVALID_PARAMETER
-def errNotFound : PyExc := .cimError 6       -- CIM_ERR_NOT_FOUND
-def errExists : PyExc := .cimError 11        -- CIM_ERR_ALREADY_EXISTS
+/-- the status codes are regenerated from the source text of the raise sites on every run
+    (tools/extractors/assoc.py -> Generated/AssocConsts.lean) and pinned by `C13_status_codes_pinned` -/
+def errNamespace : PyExc := .cimError Generated.Assoc.validateNamespaceStatus   -- CIM_ERR_INVALID_NAMESPACE
+def errParam : PyExc := .cimError Generated.Assoc.validateClassStatus          -- CIM_ERR_INVALID_PARAMETER
+def errClass : PyExc := .cimError Generated.Assoc.requiredClassStatus          -- CIM_ERR_INVALID_CLASS
+def errNotFound : PyExc := .cimError Generated.Assoc.getInstanceStatus         -- CIM_ERR_NOT_FOUND
+def errExists : PyExc := .cimError Generated.Assoc.instanceExistsStatus        -- CIM_ERR_ALREADY_EXISTS
 
 /-- `InMemoryRepository` is a NocaseDict of namespaces -/
 def findNs (r : Repo) (ns : Name) : Option NsStore := r.find? (fun s => ieq s.name ns)
@@ -426,7 +430,8 @@ def associatorsC (sv : Server) (ns : Name) (cn : Name) (f : AFilter) : Except Py
 
 /-- namespaces named by the non-NULL reference ends of `a` other than `target`
     (mirrors pywbem_mock/_instancewriteprovider.py: find_multins_association_ref_namespaces for ends
-    that all carry a namespace; compared case-insensitively, duplicates dropped) -/
+    that all carry a namespace; compared case-insensitively and duplicates dropped as after the C10 fix
+    4b16b42 — K feeds namespaces in their stored spelling, where the older case-sensitive code agrees) -/
 def otherNamespaces (a : Inst) (target : Name) : List Name :=
   (a.props.filterMap (fun p =>
     if p.isRef then
@@ -451,7 +456,7 @@ def createAssoc (sv : Server) (ns : Name) (a : Inst) : Except PyExc Server :=
   match findNs sv.repo ns with
   | none => .error errNamespace
   | some S =>
-    if !classExists S.classes a.cls then .error (.cimError 5)
+    if !classExists S.classes a.cls then .error errClass
     else
       let ends := a.props.filterMap (fun p => if p.isRef then p.value else none)
       if ends.any (fun v => v.host.isSome) then .error errParam
@@ -465,7 +470,7 @@ def createAssoc (sv : Server) (ns : Name) (a : Inst) : Except PyExc Server :=
         let nss := otherNamespaces a ns ++ [ns]
         if nss.any (fun n => match findNs sv.repo n with
                              | none => true
-                             | some T => !classExists T.classes a.cls) then .error errParam
+                             | some T => !classExists T.classes a.cls) then .error errClass
         else if nss.any (fun n => match findNs sv.repo n with
                                   | none => true
                                   | some T => (findInst T.insts (rebase a n).path).isSome) then .error errExists
